@@ -50,7 +50,8 @@ impl<'a> FindConflicts<'a, '_> {
                         .node
                         .type_condition
                         .as_ref()
-                        .map(|cond| cond.node.on.node.as_str());
+                        .map(|cond| cond.node.on.node.as_str())
+                        .or(on_type);
                     self.find(on_type, &inline_fragment.node.selection_set);
                 }
                 Selection::FragmentSpread(fragment_spread) => {
